@@ -423,22 +423,21 @@ def classes_of(desc, value, model):
 def plan(tier, seed):
     quick = tier == "quick"
     tasks = []
-    n_gen = 16
-    per = 1200 if quick else 40000
-    for i in range(n_gen):
-        tasks.append(("gen", {"shard": i, "n": per}))
-    tasks.append(("boundary", {"big": False, "shard": 0, "of": 1}) if quick else ("boundary", {"big": False, "shard": 0, "of": 1}))
-    if not quick:
-        for f in ("A", "B", "J"):
-            tasks.append(("huge", {"f": f}))
+    # the deterministic enumerations come first: they are cheap and must not fall victim to the budget on a loaded machine
+    tasks.append(("boundary", {"big": False, "shard": 0, "of": 1}))
+    tasks.append(("bytes256", {}))
+    tasks.append(("text_accept", {"full": not quick}))
+    tasks.append(("doubles", {"n": 3000 if quick else 100000}))
     if quick:
         tasks.append(("header", {"mode": "sampled"}))
     else:
         for i in range(16):
             tasks.append(("header", {"mode": "all", "shard": i, "of": 16}))
-    tasks.append(("bytes256", {}))
-    tasks.append(("text_accept", {"full": not quick}))
-    tasks.append(("doubles", {"n": 3000 if quick else 100000}))
+        for f in ("A", "B", "J"):
+            tasks.append(("huge", {"f": f}))
+    per = 1200 if quick else 40000
+    for i in range(16):
+        tasks.append(("gen", {"shard": i, "n": per}))
     return tasks
 
 
